@@ -455,7 +455,12 @@ QTYPES = [("src/query/select.rs", "struct", "SelectStatement"), ("src/query/sele
           ("src/query/select.rs", "enum", "LockBehavior"), ("src/query/select.rs", "struct", "LockClause"), ("src/query/select.rs", "enum", "UnionType"),
           ("src/types.rs", "struct", "OrderExpr"), ("src/types.rs", "enum", "JoinOn"), ("src/types.rs", "enum", "JoinType"), ("src/expr.rs", "enum", "SimpleExpr"),
           ("src/query/update.rs", "struct", "UpdateStatement"), ("src/query/delete.rs", "struct", "DeleteStatement"),
-          ("src/query/insert.rs", "enum", "InsertValueSource"), ("src/query/insert.rs", "struct", "InsertStatement"), ("src/query/returning.rs", "enum", "ReturningClause")]
+          ("src/query/insert.rs", "enum", "InsertValueSource"), ("src/query/insert.rs", "struct", "InsertStatement"), ("src/query/returning.rs", "enum", "ReturningClause"),
+          ("src/query/with.rs", "struct", "CommonTableExpression"), ("src/query/with.rs", "enum", "SearchOrder"), ("src/query/with.rs", "struct", "Search"), ("src/query/with.rs", "struct", "Cycle"),
+          ("src/query/with.rs", "struct", "WithClause"), ("src/query/with.rs", "struct", "WithQuery"),
+          ("src/query/window.rs", "enum", "Frame"), ("src/query/window.rs", "enum", "FrameType"), ("src/query/window.rs", "struct", "FrameClause"), ("src/query/window.rs", "struct", "WindowStatement"),
+          ("src/query/on_conflict.rs", "enum", "OnConflictTarget"), ("src/query/on_conflict.rs", "enum", "OnConflictAction"), ("src/query/on_conflict.rs", "enum", "OnConflictUpdate"),
+          ("src/query/on_conflict.rs", "struct", "OnConflict")]
 QSTD = {"Vec", "Option", "Box", "String", "bool", "u8", "u16", "u32", "u64", "usize", "i32", "i64", "str", "Self", "crate", "extension", "postgres", "mysql"}
 r_path = make_r_sub("R-path", r"crate::extension::(postgres|mysql)::", "", min_count=0)
 r_pubc = make_r_sub("R-vis", r"pub\(crate\) enum", "pub enum", min_count=0)
@@ -466,6 +471,8 @@ pub trait IntoTableRef: Sized { spec fn sp_table_ref(self) -> TableRef; fn into_
 pub trait IntoColumnRef: Sized { spec fn sp_column_ref(self) -> ColumnRef; fn into_column_ref(self) -> (r: ColumnRef) ensures r == self.sp_column_ref(); }
 pub trait IntoCondition: Sized { spec fn sp_condition(self) -> Condition; fn into_condition(self) -> (r: Condition) ensures r == self.sp_condition(); }
 pub trait VInto<T>: Sized { spec fn sp_into(self) -> T; fn into(self) -> (r: T) ensures r == self.sp_into(); }
+// QueryStatementBuilder::into_sub_query_statement (wraps the statement into the SubQueryStatement variant of its kind): a function of it
+pub trait VQueryStatementBuilder: Sized { spec fn sp_sub_query(self) -> SubQueryStatement; fn into_sub_query_statement(self) -> (r: SubQueryStatement) ensures r == self.sp_sub_query(); }
 pub trait VToString { spec fn sp_string(&self) -> String; fn to_string(&self) -> (r: String) ensures r == self.sp_string(); }
 // `impl<T: Into<SimpleExpr>> From<T> for SelectExpr` (extracted below): a bare select-list item, no alias, no window
 impl VInto<SimpleExpr> for SimpleExpr { open spec fn sp_into(self) -> SimpleExpr { self } fn into(self) -> SimpleExpr { self } }
@@ -495,6 +502,7 @@ impl VInto<Value> for u64 { open spec fn sp_into(self) -> Value { sp_value_u64(s
 """
 
 r_into_q = make_r_sub("R-into", r"\bInto<(String|SimpleExpr|SelectExpr|WithClause)>", r"VInto<\1>", min_count=0)
+r_qsb = make_r_sub("R-into", r"\b([A-Z]): QueryStatementBuilder( \+ 'static)?", r"\1: VQueryStatementBuilder", min_count=0)
 r_tostr = make_r_sub("R-into", r"\bT: ToString\b", "T: VToString", min_count=0)
 r_u64 = make_r_sub("R-into", r"Some\((\(?limit\b[^;]*?)\.into\(\)\)", r"Some(VInto::<Value>::into(\1))", min_count=0)
 r_rawty = [r_u64, make_r_sub("R-rawident", r"r#type: LockType", "type_: LockType", min_count=0), make_r_sub("R-rawident", r"(\{\s*)r#type,", r"\1r#type: type_,", min_count=0)]
@@ -505,7 +513,7 @@ def build_query(u):
     u.emit("use vstd::prelude::*;\nuse vstd::std_specs::iter::IteratorSpec;\nverus! {\n")
     texts, known = {}, set(n for _, _, n in QTYPES)
     for f, k, n in QTYPES:
-        texts[n] = rl.find_type(f, u.src(f), k, n).text
+        texts[n] = re.sub(r"^\s*//[^\n]*\n", "", rl.find_type(f, u.src(f), k, n).text, flags=re.M)     # (doc comments may contain braces / type names)
     mentioned = set()
     for n, t in texts.items():
         body = t[t.index("{"):]
@@ -524,7 +532,7 @@ def build_query(u):
         else:
             payload |= set(x.group(1) for x in re.finditer(r"\b([A-Z][A-Za-z0-9_]*)\b", body))
     variants -= payload
-    opaque = sorted((mentioned - known - QSTD - variants) | {"Condition", "ColumnRef", "TableRef", "DynIden", "Value", "FunctionCall", "WithClause", "ConditionHolder", "WindowStatement", "OnConflict"})
+    opaque = sorted((mentioned - known - QSTD - variants) | {"Condition", "ColumnRef", "TableRef", "DynIden", "Value", "FunctionCall", "ConditionHolder", "SubQueryStatement"})
     for n in opaque:
         u.emit("#[verifier::external_body]\npub struct %s { _opaque: u8 }\n" % n, kind="spec", key="R-opaque:" + n, props=PQ)
     F = {}
@@ -544,7 +552,7 @@ def build_query(u):
     class BQ(B):
         def fn(self, fname, changes, rules=(), **kw):
             kw.setdefault("props", PQ)
-            B.fn(self, fname, changes, rules=[r_into_q, r_tostr] + r_rawty + list(rules), **kw)
+            B.fn(self, fname, changes, rules=[r_into_q, r_tostr, r_qsb] + r_rawty + list(rules), **kw)
     # ---- SELECT ---------------------------------------------------------------------------------------------------------------------------
     sel = F["SelectStatement"]
     u.emit("impl SelectStatement {\n")
@@ -692,5 +700,120 @@ def build_query(u):
          extra="final(self).returning is Some && final(self).returning->Some_0 is Columns && final(self).returning->Some_0->Columns_0@ == seq![col.sp_column_ref()],")
     b.fn("returning_all", {"returning": "Some(ReturningClause::All)"})
     b.fn("with_cte", {"with": "Some(clause.sp_into())"})
+    u.emit("}\n")
+
+    # ---- WITH: common table expressions, SEARCH / CYCLE, the clause and the statement it is attached to ------------------------------------------
+    W = "src/query/with.rs"
+    u.spec("#[verifier::external_body] fn vmap_idens_q<T: IntoIden>(xs: Vec<T>) -> (r: Vec<DynIden>) ensures r@ == xs@.map_values(|x: T| x.sp_iden()) { unimplemented!() }\n"
+           "#[verifier::external_body] fn vextend_q<T>(v: &mut Vec<T>, items: Vec<T>) ensures final(v)@ == old(v)@ + items@ { unimplemented!() }\n", "builders::with-shims", props=PQ)
+    u.emit("impl CommonTableExpression {\n")
+    b = BQ(u, W, "CommonTableExpression", F["CommonTableExpression"])
+    b.fn("table_name", {"table_name": "Some(table_name.sp_iden())"})
+    b.fn("column", {"cols@": "old(self).cols@.push(col.sp_iden())"}, comment="CTE column list: appended in call order")
+    b.fn("columns", {"cols@": "old(self).cols@ + cols@.map_values(|x: T| x.sp_iden())"},
+         rules=[make_r_sub("R-collect", r"self\.cols\s*\.extend\(cols\.into_iter\(\)\.map\(\|col\| col\.into_iden\(\)\)\);", "vextend_q(&mut self.cols, vmap_idens_q(cols));")])
+    b.fn("materialized", {"materialized": "Some(materialized)"})
+    b.fn("query", {"query": "Some(Box::new(query.sp_sub_query()))"})
+    u.emit("}\n")
+    u.emit("impl Search {\n")
+    b = BQ(u, W, "Search", F["Search"])
+    b.fn("order", {"order": "Some(order)"})
+    b.fn("expr", {"expr": "Some(expr.sp_into())"}, requires="expr.sp_into().alias is Some", comment="(the builder panics on an expression without alias: its precondition)")
+    u.emit("}\n")
+    u.emit("impl Cycle {\n")
+    b = BQ(u, W, "Cycle", F["Cycle"])
+    b.fn("expr", {"expr": "Some(expr.sp_into())"})
+    b.fn("set", {"set_as": "Some(set.sp_iden())"})
+    b.fn("using", {"using": "Some(using.sp_iden())"})
+    u.emit("}\n")
+    u.emit("impl WithClause {\n")
+    b = BQ(u, W, "WithClause", F["WithClause"])
+    b.fn("recursive", {"recursive": "recursive"})
+    b.fn("search", {"search": "Some(search)"})
+    b.fn("cycle", {"cycle": "Some(cycle)"})
+    b.fn("cte", {"cte_expressions@": "old(self).cte_expressions@.push(cte)"}, comment="CTEs: appended in call order")
+    u.emit("}\n")
+    u.emit("impl WithQuery {\n")
+    b = BQ(u, W, "WithQuery", F["WithQuery"])
+    b.fn("with_clause", {"with_clause": "with_clause"})
+    b.fn("recursive", {"with_clause": "(WithClause { recursive: recursive, ..old(self).with_clause })"})
+    b.fn("search", {"with_clause": "(WithClause { search: Some(search), ..old(self).with_clause })"})
+    b.fn("cycle", {"with_clause": "(WithClause { cycle: Some(cycle), ..old(self).with_clause })"})
+    b.fn("cte", {"with_clause": "(WithClause { cte_expressions: final(self).with_clause.cte_expressions, ..old(self).with_clause })"},
+         extra="final(self).with_clause.cte_expressions@ == old(self).with_clause.cte_expressions@.push(cte),")
+    b.fn("query", {"query": "Some(Box::new(query.sp_sub_query()))"})
+    u.emit("}\n")
+
+    # ---- windows: PARTITION BY (trait OverStatement, verified generically like OrderedStatement), frames ------------------------------------------
+    WN = "src/query/window.rs"
+    u.emit("""pub trait OverStatement: Sized {
+    spec fn partitions_view(&self) -> Seq<SimpleExpr>;
+    spec fn same_but_partitions(&self, other: &Self) -> bool;
+    proof fn plaw_refl(&self) ensures self.same_but_partitions(self);
+    proof fn plaw_trans(&self, b: &Self, c: &Self) requires self.same_but_partitions(b), b.same_but_partitions(c) ensures self.same_but_partitions(c);
+    fn add_partition_by(&mut self, partition: SimpleExpr)
+        ensures final(self).partitions_view() == old(self).partitions_view().push(partition), old(self).same_but_partitions(final(self));
+""", kind="spec", key="builders::trait OverStatement", props=PQ)
+    u.fn(WN, "trait OverStatement", "partition_by", props=PQ, key="OverStatement::partition_by", vpath="OverStatement::partition_by", rules=[r_retself],
+         spec="ensures final(self).partitions_view() == old(self).partitions_view().push(SimpleExpr::Column(col.sp_column_ref())), old(self).same_but_partitions(final(self)),")
+    for nm, mk in [("partition_by_customs", "SimpleExpr::Custom(c.sp_string())"), ("partition_by_columns", "SimpleExpr::Column(c.sp_column_ref())")]:
+        mapf = "|c: T| %s" % mk
+        u.fn(WN, "trait OverStatement", nm, props=PQ, key="OverStatement::" + nm, vpath="OverStatement::" + nm,
+             spec="ensures\n    // every item, in order, after the ones already given\n    final(self).partitions_view() == old(self).partitions_view() + cols@.map_values(%s),\n    old(self).same_but_partitions(final(self))," % mapf,
+             loops=["invariant it.index@ <= cols@.len(), it.snapshot@.remaining() == cols@, old(self).same_but_partitions(self),\n    self.partitions_view() =~= old(self).partitions_view() + cols@.subrange(0, it.index@ as int).map_values(%s)," % mapf],
+             rules=[r_retself, r_tostr, r_iter_param, make_r_sub("R-fold", r"cols\.into_iter\(\)\.for_each\(\|c\| \{", "for c in it: cols.into_iter() {"), make_r_sub("R-fold", r"\}\);\s*\}\s*$", "}\n    }")],
+             proofs={"body-start": "proof { self.plaw_refl(); }", "loop1-start": "let ghost before_ = *self;",
+                     "loop1-end": "proof { old(self).plaw_trans(&before_, self); assert(cols@.subrange(0, it.index@ + 1) =~= cols@.subrange(0, it.index@ as int).push(c)); }",
+                     "body-end": "proof { assert(cols@.subrange(0, cols@.len() as int) =~= cols@); }"})
+    u.emit("}\n")
+    ws = F["WindowStatement"]
+    u.emit("impl OverStatement for WindowStatement {\n    open spec fn partitions_view(&self) -> Seq<SimpleExpr> { self.partition_by@ }\n    open spec fn same_but_partitions(&self, other: &Self) -> bool { %s }\n    proof fn plaw_refl(&self) {}\n    proof fn plaw_trans(&self, b: &Self, c: &Self) {}\n"
+           % " && ".join("self.%s == other.%s" % (n, n) for n, _ in ws if n != "partition_by"), kind="spec", key="builders::impl OverStatement for WindowStatement", props=PQ)
+    u.fn(WN, "impl OverStatement for WindowStatement", "add_partition_by", props=PQ, key="WindowStatement::add_partition_by[trait]", vpath="<WindowStatement as OverStatement>::add_partition_by", rules=[r_retself], no_canary=True)
+    u.emit("}\n")
+    u.emit("impl OrderedStatement for WindowStatement {\n    open spec fn orders_view(&self) -> Seq<OrderExpr> { self.order_by@ }\n    open spec fn same_but_orders(&self, other: &Self) -> bool { %s }\n    proof fn law_refl(&self) {}\n    proof fn law_trans(&self, b: &Self, c: &Self) {}\n"
+           % " && ".join("self.%s == other.%s" % (n, n) for n, _ in ws if n != "order_by"), kind="spec", key="builders::impl OrderedStatement for WindowStatement", props=PQ)
+    u.fn(WN, "impl OrderedStatement for WindowStatement", "add_order_by", props=PQ, key="WindowStatement::add_order_by[trait]", vpath="<WindowStatement as OrderedStatement>::add_order_by", rules=[r_retself, r_inh], no_canary=True)
+    u.emit("}\n")
+    u.emit("impl WindowStatement {\n")
+    b = BQ(u, WN, "WindowStatement", ws)
+    r_ft = [make_r_sub("R-rawident", r"r#type: FrameType", "type_: FrameType", min_count=0), make_r_sub("R-rawident", r"FrameClause \{ r#type, start, end \}", "FrameClause { r#type: type_, start, end }", min_count=0),
+            make_r_sub("R-rawident", r"self\.frame\(r#type,", "self.frame(type_,", min_count=0)]
+    b.fn("frame", {"frame": "Some(FrameClause { r#type: type_, start: start, end: end })"}, rules=r_ft)
+    b.fn("frame_start", {"frame": "Some(FrameClause { r#type: type_, start: start, end: None })"}, rules=r_ft)
+    b.fn("frame_between", {"frame": "Some(FrameClause { r#type: type_, start: start, end: Some(end) })"}, rules=r_ft)
+    u.emit("}\n")
+
+    # ---- ON CONFLICT --------------------------------------------------------------------------------------------------------------------------------
+    OC = "src/query/on_conflict.rs"
+    # DO UPDATE: the columns / assignments given are appended to an UPDATE action already declared, and replace anything else
+    u.spec("""pub open spec fn sp_upd_cols<C: IntoIden>(xs: Seq<C>) -> Seq<OnConflictUpdate> { xs.map_values(|x: C| OnConflictUpdate::Column(x.sp_iden())) }
+pub open spec fn sp_upd_exprs<C: IntoIden>(xs: Seq<(C, SimpleExpr)>) -> Seq<OnConflictUpdate> { xs.map_values(|p: (C, SimpleExpr)| OnConflictUpdate::Expr(p.0.sp_iden(), p.1)) }
+pub open spec fn sp_updates(a: Option<OnConflictAction>) -> Seq<OnConflictUpdate> { match a { Some(OnConflictAction::Update(v)) => v@, _ => Seq::empty() } }
+#[verifier::external_body] fn vmap_upd_cols<C: IntoIden>(xs: Vec<C>) -> (r: Vec<OnConflictUpdate>) ensures r@ == sp_upd_cols(xs@) { unimplemented!() }
+#[verifier::external_body] fn vmap_upd_exprs<C: IntoIden>(xs: Vec<(C, SimpleExpr)>) -> (r: Vec<OnConflictUpdate>) ensures r@ == sp_upd_exprs(xs@) { unimplemented!() }
+""", "builders::on-conflict-spec", props=PQ)
+    u.emit("impl OnConflict {\n")
+    b = BQ(u, OC, "OnConflict", F["OnConflict"])
+    b.fn("do_nothing", {"action": "(if final(self).action is Some && final(self).action->Some_0 is DoNothing { Some(OnConflictAction::DoNothing(final(self).action->Some_0->DoNothing_0)) } else { None })"},
+         extra="final(self).action is Some && final(self).action->Some_0 is DoNothing && final(self).action->Some_0->DoNothing_0@.len() == 0,")
+    b.fn("do_nothing_on", {"action": "(if final(self).action is Some && final(self).action->Some_0 is DoNothing { Some(OnConflictAction::DoNothing(final(self).action->Some_0->DoNothing_0)) } else { None })"},
+         extra="final(self).action is Some && final(self).action->Some_0 is DoNothing && final(self).action->Some_0->DoNothing_0@ == pk_cols@.map_values(|x: C| x.sp_iden()),",
+         rules=[make_r_sub("R-collect", r"pk_cols\.into_iter\(\)\.map\(IntoIden::into_iden\)\.collect\(\),?", "vmap_idens_q(pk_cols)")])
+    ACT = "(if final(self).action is Some && final(self).action->Some_0 is Update { Some(OnConflictAction::Update(final(self).action->Some_0->Update_0)) } else { None })"
+    b.fn("update_columns", {"action": ACT}, extra="final(self).action is Some && final(self).action->Some_0 is Update && sp_updates(final(self).action) == sp_updates(old(self).action) + sp_upd_cols(columns@),",
+         rules=[make_r_sub("R-collect", r"columns\s*\.into_iter\(\)\s*\.map\(\|x\| OnConflictUpdate::Column\(IntoIden::into_iden\(x\)\)\)\s*\.collect\(\)", "vmap_upd_cols(columns)")])
+    b.fn("values", {"action": ACT}, extra="final(self).action is Some && final(self).action->Some_0 is Update && sp_updates(final(self).action) == sp_updates(old(self).action) + sp_upd_exprs(values@),",
+         rules=[make_r_sub("R-collect", r"values\s*\.into_iter\(\)\s*\.map\(\|\(c, e\)\| OnConflictUpdate::Expr\(c\.into_iden\(\), e\)\)\s*\.collect\(\)", "vmap_upd_exprs(values)")])
+    u.emit("}\n")
+    # ---- RETURNING constructors -------------------------------------------------------------------------------------------------------------------------
+    R = "src/query/returning.rs"
+    u.emit("pub struct Returning;\nimpl Returning {\n")
+    rr = [r_inh, r_into_q, r_iter_param]
+    u.fn(R, "impl Returning", "all", ret="r", props=PQ, rules=rr, key="Returning::all", vpath="Returning::all", spec="ensures r == ReturningClause::All,")
+    u.fn(R, "impl Returning", "column", ret="r", props=PQ, rules=rr, key="Returning::column", vpath="Returning::column", spec="ensures r is Columns, r->Columns_0@ == seq![col.sp_column_ref()],")
+    u.fn(R, "impl Returning", "columns", ret="r", props=PQ, key="Returning::columns", vpath="Returning::columns", spec="ensures\n    // the columns given, in order\n    r is Columns, r->Columns_0@ == sp_colrefs(cols@),",
+         rules=rr + [make_r_sub("R-collect", r"let cols: Vec<_> = cols\.into_iter\(\)\.map\(\|c\| c\.into_column_ref\(\)\)\.collect\(\);", "let cols: Vec<ColumnRef> = vmap_colrefs(cols);")])
+    u.fn(R, "impl Returning", "expr", ret="r", props=PQ, rules=rr, key="Returning::expr", vpath="Returning::expr", spec="ensures r is Exprs, r->Exprs_0@ == seq![expr.sp_into()],")
     u.emit("}\n")
     u.emit("} // verus!\nfn main() {}\n")
